@@ -1055,11 +1055,18 @@ def _parse_body(p, ins, op):
               'atomicrmw', 'invoke', 'resume', 'landingpad', 'indirectbr',
               'callbr'):
         # generic: collect typed values where possible
-        ins.x = {'generic': True}
+        ins.x = {'generic': True, 'indices': []}
         args = []
         try:
             while not p.at_end():
-                if p.peek()[0] == 'num' or p.peek()[1] in (',',):
+                if p.peek()[0] == 'num':
+                    try:
+                        ins.x['indices'].append(int(p.peek()[1]))
+                    except (TypeError, ValueError):
+                        pass
+                    p.next()
+                    continue
+                if p.peek()[1] in (',',):
                     p.next()
                     continue
                 args.append(p.typed_value())
